@@ -365,17 +365,18 @@ def _searchsorted(a, v, side='left', sorter=None):
     return out if out.shape else int(out[()])
 
 
-def _interp1(x, xp, fp):
-    """np.interp reference model for scalar x: xp non-decreasing; clamps outside."""
+def _interp1(x, xp, fp, left=None, right=None):
+    """np.interp reference model for scalar x: xp non-decreasing; outside the range `left`/`right` (default: end values).
+    At a duplicated abscissa numpy returns the value of the LAST duplicate (binary search for the largest j with
+    xp[j] <= x)."""
     n = len(xp)
     if _isnan(x):
         return float('nan')
-    if bool(x <= xp[0]):
-        # np.interp returns fp[0] for x < xp[0]; for x == xp[0] with duplicates it returns the
-        # value of the LAST duplicate?  (numpy uses binary search: for x == xp[0] -> fp[0])
-        if bool(x < xp[0]):
-            return fp[0]
-    if bool(x >= xp[n - 1]):
+    if bool(x < xp[0]):
+        return fp[0] if left is None else left
+    if bool(x > xp[n - 1]):
+        return fp[n - 1] if right is None else right
+    if bool(x == xp[n - 1]):
         return fp[n - 1]
     # numpy: j = largest index with xp[j] <= x  (binary search), then slope on [j, j+1]
     j = 0
@@ -388,10 +389,10 @@ def _interp1(x, xp, fp):
 
 
 def _interp(x, xp, fp, left=None, right=None, period=None):
-    assert left is None and right is None and period is None
+    assert period is None
     xp = list(_plain(_np.asarray(xp, dtype=object)))
     fp = list(_plain(_np.asarray(fp, dtype=object)))
-    return elementwise(lambda e: _interp1(e, xp, fp))(x if isinstance(x, _np.ndarray) else _np.asarray(x, dtype=object))
+    return elementwise(lambda e: _interp1(e, xp, fp, left, right))(x if isinstance(x, _np.ndarray) else _np.asarray(x, dtype=object))
 
 
 def _isclose1(a, b, rtol=1e-05, atol=1e-08):
